@@ -116,6 +116,9 @@ def gen_config(H: Chooser, tier):
     # re-presentation of an already evaluated individual (it is registered again by the tracker)
     cfg["represent"] = H.draw(4) == 3
     cfg["other_problem"] = H.draw(4) == 3
+    # F15: one user callback of an extra field raises for one individual (part-way through its row); the caller catches the
+    # exception and keeps using the tracker: the rows recorded afterwards must still be complete and their own
+    cfg["callback_fault"] = [H.draw(n), H.draw(n)] if (H.draw(3) == 2 and cfg["extra"] and not cfg["only_best"]) else None
     return cfg
 
 
@@ -260,11 +263,20 @@ class World:
         extra = None
         if cfg["extra"]:
             extra = {}
+            self.armed = None
+
+            def failing(j, inner):
+                def f(t, i, p):
+                    if self.armed is not None and i.genotype == self.armed and j == cfg["extra"] - 1:
+                        raise ZeroDivisionError("injected by the simulator: extra-field callback fails")
+                    return inner(t, i, p)
+                return f
+
             for j in range(cfg["extra"]):
                 if j % 2 == 0:
-                    extra[f"extra{j}"] = (lambda j: lambda t, i, p: len(str(i.get_phenotype())) + j)(j)
+                    extra[f"extra{j}"] = failing(j, (lambda j: lambda t, i, p: len(str(i.get_phenotype())) + j)(j))
                 else:
-                    extra[f"extra{j}"] = lambda t, i, p: f"{i.genotype}:{str(i.get_phenotype())[:3]}"
+                    extra[f"extra{j}"] = failing(j, lambda t, i, p: f"{i.genotype}:{str(i.get_phenotype())[:3]}")
         self.header = self.expected_fields()
         with installed_clock(self.clock), installed_fs(fs):
             rec = CSVSearchRecorder(self.path, problem, fields=fields, extra_fields=extra,
@@ -295,6 +307,18 @@ class World:
                 tracker.evaluate(group)
                 fs.event("between-batches")
                 tracker.get_elapsed_time()
+            if cfg.get("callback_fault"):
+                x, y = (inds[i] for i in cfg["callback_fault"])
+                self.armed = x.genotype
+                ctx.faults["callback_error"] += 1
+                try:
+                    tracker.evaluate([x])
+                except ZeroDivisionError:
+                    pass
+                self.armed = None
+                self.in_reg = False
+                self.check_image("after-failed-registration")  # nothing of the failed row may be on disk
+                tracker.evaluate([y])
         try:
             rec.csv_file.close()
         except Exception:
